@@ -9,8 +9,8 @@ SPEC = {
     "sub": "c19",
     "lean_modules": ["TrustVerif.Props.C19"],
     "tiers": {
-        "quick": {"cases": 900, "extra": {}},
-        "thorough": {"cases": 15000, "extra": {"stress": 40}},
+        "quick": {"cases": 900, "extra": {"barrier": 300}},
+        "thorough": {"cases": 15000, "extra": {"stress": 40, "barrier": 3000}},
     },
     "disagreement_is_violation": True,
     "rule": "case = sentinel tree (outside files, hidden entries, directory/file links pointing out, in, at hidden "
@@ -64,8 +64,10 @@ MANIFEST = {
                   "of any number of clients' unlocked reads and locked sections, arbitrary expected versions and "
                   "tracked-text overrides). Each run executes the model and the real WebIdeState on the same generated "
                   "trees and operation sequences and compares every answer and the whole-tree diff after every "
-                  "operation, and independently evaluates confinement, authorisation, no-leak and no-lost-update "
-                  "oracles on the implementation.",
+                  "operation, independently evaluates confinement, authorisation, no-leak and no-lost-update "
+                  "oracles on the implementation, and runs real-thread contention (4 editor sessions released by a "
+                  "barrier on the same expected version, hundreds of rounds): at most one success per version, v -> v+1, "
+                  "file = content of that success.",
     "level_note": "Partial where the code violates the property: the no-lost-update / chain / last-success theorems hold "
                   "for the versioned steps only; delete_entry+create_entry (version reuse), rename_symbol (no expected "
                   "version) and a write through a second document key of the same file (alias through an in-root "
@@ -79,8 +81,10 @@ MANIFEST = {
                   "effect locations is not separately proved (the run compares full tree diffs); no TOCTOU races with "
                   "concurrent external changes; rename_symbol and the analysis requests (diagnostics, hover, completion, "
                   "definition, references, symbols), glob filters of search, very long and NUL-containing paths are "
-                  "checked by the oracles on the implementation only, not modelled; real-thread interleavings are only "
-                  "stress-tested (thorough tier); browse_directory and set_active_project leave the project by design and "
+                  "checked by the oracles on the implementation only, not modelled; the atomicity of apply_source's locked "
+                  "section (check, disk write, commit under one lock hold) is a modelling decision (Proto.applyLocked; "
+                  "c19_counterexample_split_apply shows the theorems fail without it) that sequential runs cannot see - "
+                  "it is tied to the code by the barrier contention run only, i.e. by testing (schedule-dependent); browse_directory and set_active_project leave the project by design and "
                   "are out of scope.",
 }
 
@@ -96,6 +100,10 @@ def extra(ctx):
                     obj = json.loads(l[len("# ORACLE-FAIL "):])
                 except ValueError:
                     obj = {"raw": l}
+                if obj.get("schedule_dependent"):
+                    obj["replay_note"] = ("schedule-dependent: found by real threads released together by a barrier; "
+                                          "re-running the check repeats the contention (hundreds of rounds), not this "
+                                          "exact schedule; 'trace' is what the round's threads observed")
                 obj.update({"seed": ctx["seed"], "tier": ctx["tier"],
                             "what": "the property's own statement, evaluated on the implementation, failed",
                             "case_lines": c.lines[:400]})
@@ -116,6 +124,8 @@ def extra(ctx):
     cov = {"coverage": {
         "oracle_only_ops": stats.get("oracle_only_ops", 0),
         "incidental_panics_in_analysis_ops": stats.get("incidental_panic_in_analysis_op", 0),
+        "barrier_contention_rounds": stats.get("barrier_rounds", 0),
+        "barrier_contention_successful_writes": stats.get("barrier_successes", 0),
         "thread_stress_rounds": stats.get("stress_rounds", 0),
         "thread_stress_successful_writes": stats.get("stress_successes", 0),
     }}
